@@ -313,6 +313,11 @@ pub fn run_batch(scen: &dyn Scenario, cfg: &BatchCfg) -> BatchOut {
         }
     }
     b.first_hashes.sort();
+    if let Some(f) = &b.violation {
+        // workers may have run a few indices beyond the first violation before noticing it
+        let stop = f.idx;
+        b.first_hashes.retain(|(i, _)| *i < stop);
+    }
     b.samples.sort_by_key(|(i, _)| *i);
     b.obs = obs;
     b.wall_s = t0.elapsed().as_secs_f64();
